@@ -837,7 +837,10 @@ input::
                 if t is None:
                     t = cn.impose_at(*to.select_params(self,collapses[k]))
                 else:
-                    t = cn.impose_at(collapses[k],t)
+                    i = collapses[k]
+                    if hasattr(t, '__len__'): # target per parameter: select
+                        i = sorted(i); t = [t[j] for j in i]
+                    t = cn.impose_at(i,t)
                 conditions.append(t)
             elif k.startswith('CollapseAs'):
                 t = state[k]
